@@ -95,6 +95,7 @@ class ProducerWorld(ClientWorld):
         self._clock_seen = 0
         self.batch_resolved_times = []
         self.value_owner = {}  # value bytes -> (send index, message index)
+        self.dup_owners = {}  # (key, value) -> every (send index, message index) that sent exactly this record
 
     def c08_call_done(self, res, c08):
         """C08 at the producer -> client seam: a produce call none of whose payloads reached a connection is a failed
@@ -131,6 +132,7 @@ class ProducerWorld(ClientWorld):
             s = Send(len(self.sends), topic, key, vals)
             for j, v in enumerate(vals):
                 self.value_owner.setdefault((key, v), (s.i, j))
+                self.dup_owners.setdefault((key, v), []).append((s.i, j))
             s.t_send = self.clock.seconds()
             self.sends.append(s)
             try:
@@ -233,11 +235,26 @@ class ProducerWorld(ClientWorld):
                         s.wire_steps.append(self.step)
             self.check_wire(req, content)
 
+    def owner_for(self, kv, used):
+        """Who sent this record?  For records sent more than once (identical topic, key and payload) the copies seen
+        in one request belong to the oldest sends that were not resolved before ever being dispatched."""
+        owners = self.dup_owners.get(kv)
+        if not owners:
+            return None
+        if len(owners) == 1:
+            return owners[0]
+        free = [o for o in owners if o not in used]
+        live = [o for o in free if not (self.sends[o[0]].fired and not self.sends[o[0]].call_steps)]
+        o = (live or free or owners)[0]
+        used.add(o)
+        return o
+
     def _sends_in(self, topic, kvs):
         out = []
         seen = set()
+        used = set()
         for k, v in kvs:
-            o = self.value_owner.get((k, v))
+            o = self.owner_for((k, v), used)
             if o is not None and o[0] not in seen and self.sends[o[0]].topic == topic:
                 seen.add(o[0])
                 out.append(self.sends[o[0]])
@@ -353,8 +370,9 @@ class ProducerWorld(ClientWorld):
                 else:
                     vals.append((m.key, m.value))
             content[(p.topic, p.partition)] = vals
+            used = set()
             for v in vals:
-                o = self.value_owner.get(v)
+                o = self.owner_for(v, used)
                 if o is not None:
                     if o[0] not in idx:
                         idx.append(o[0])
@@ -446,12 +464,14 @@ class ProducerWorld(ClientWorld):
             if self.step == self.stop_called_step:
                 from afkak.common import CancelledError as AfkakCancelled
                 from twisted.internet.defer import CancelledError
+                from twisted.internet.error import ConnectingCancelledError
                 from twisted.python.failure import Failure
                 for s in self.sends:
                     if s.d is not None and not s.fired:
                         self.viol("stop", "send-outstanding-after-stop", "send %d still pending after stop()" % s.i)
                     elif s.step_fired == self.step and not (isinstance(s.result, Failure) and
-                                                            s.result.check(CancelledError, AfkakCancelled)):
+                                                            s.result.check(CancelledError, AfkakCancelled,
+                                                                           ConnectingCancelledError)):
                         self.viol("stop", "stop-resolves-send-without-cancellation-error",
                                   "stop() resolved send %d with %r instead of a cancellation error" % (s.i, s.result))
 
@@ -660,11 +680,12 @@ class BatchWorld(ProducerWorld):
                         if piece == "N":
                             msgs.append(None)
                         else:
-                            tag = "s%d.%d:" % (self.nsends, j)
+                            # (same_content: the application sends the same record again and again)
+                            tag = "s%d.%d:" % (0 if self.cfg.get("same_content") else self.nsends, j)
                             n = int(piece)
                             msgs.append((tag + "x" * n)[:max(n, 1)] if n < len(tag) else tag + "x" * (n - len(tag)))
                     self.nsends += 1
-                    self.do_app(["send", "t", "k%d" % self.nsends, msgs])
+                    self.do_app(["send", "t", "k" if self.cfg.get("same_content") else "k%d" % self.nsends, msgs])
                 elif parts[1] == "cancel":
                     self.cancels += 1
                     self.do_app(["cancel", int(parts[2])])
